@@ -109,6 +109,8 @@ func runC16(c *core.Ctx, idx int) {
 		Fields: []schema.Field{{Name: "name", Kind: schema.KStr}, {Name: "code", Kind: schema.KStr}, {Name: "labels", Kind: schema.KList},
 			// a field the strategy writes through a nested bucket of the entity (settings/zone): it follows the name
 			{Name: "zone", Kind: schema.KStr, Prefix: []string{"settings"}},
+			// a required string, written through PersistContext.SetRequiredString
+			{Name: "title", Kind: schema.KStrReq},
 			{Name: "pegs", Kind: schema.KList, FK: "pegs", Derived: true}, {Name: "rpegs", Kind: schema.KList, FK: "pegs", Derived: true}},
 		Unique: []schema.UniqueDef{{Field: "code", Nullable: true}}, SetIdx: []string{"labels"},
 		Links: []schema.LinkDef{{Field: "pegs", Target: "pegs", TargetField: "widgets"}, {Field: "rpegs", Target: "pegs", TargetField: "rwidgets", RefCounted: true}}}
@@ -244,7 +246,7 @@ func runC16(c *core.Ctx, idx int) {
 		switch op.Kind {
 		case "create", "update", "patch":
 			name := op.Name
-			e := &schema.Ent{Id: op.Id, Typ: "widgets", V: map[string]any{"name": name, "zone": "z-" + name, "code": "code-" + op.Id, "labels": []string{"l-" + op.Id, "shared"}}}
+			e := &schema.Ent{Id: op.Id, Typ: "widgets", V: map[string]any{"name": name, "zone": "z-" + name, "title": "t-" + name, "code": "code-" + op.Id, "labels": []string{"l-" + op.Id, "shared"}}}
 			target := st
 			if op.Child {
 				target = kst
@@ -557,6 +559,9 @@ func runC16(c *core.Ctx, idx int) {
 				if hasKid != m.Child || (m.Child && extra != m.Extra) {
 					c.Violationf("C16 child-store part differs from the model", map[string]any{"history": tailC16(hist, 5), "id": id}, "entity %s: child data present %v (model %v), extra %q (model %q)", id, hasKid, m.Child, extra, m.Extra)
 				}
+				if title, _ := e.V["title"].(string); title != "t-"+m.Name {
+					c.Violationf("C16 a required string field of the entity differs from the model", map[string]any{"history": tailC16(hist, 5), "id": id}, "entity %s: title %q, expected %q", id, title, "t-"+m.Name)
+				}
 				if zone, _ := e.V["zone"].(string); zone != "z-"+m.Name {
 					c.Violationf("C16 a field in a nested bucket of the entity differs from the model", map[string]any{"history": tailC16(hist, 5), "id": id}, "entity %s: settings/zone %q, expected %q", id, zone, "z-"+m.Name)
 				}
@@ -637,6 +642,7 @@ func checker(fields []string) boltz.FieldChecker {
 		m[f] = struct{}{}
 		if f == "name" {
 			m["zone"] = struct{}{} // the nested field follows the name
+			m["title"] = struct{}{}
 		}
 	}
 	return m
